@@ -1,6 +1,7 @@
 package main
 
 import (
+	"sort"
 	"strconv"
 	"strings"
 )
@@ -282,4 +283,14 @@ func shortType(s string) string {
 	s = strings.ReplaceAll(s, "github.com/enbility/spine-go/", "")
 	s = strings.ReplaceAll(s, "github.com/enbility/ship-go/", "ship/")
 	return s
+}
+
+// sortedKeys gives a deterministic iteration order over a string-keyed set.
+func sortedKeys(m map[string]bool) []string {
+	out := make([]string, 0, len(m))
+	for k := range m {
+		out = append(out, k)
+	}
+	sort.Strings(out)
+	return out
 }
